@@ -173,6 +173,12 @@ def gen_plan(rng, idx):
                                                 9.4, 9.9, 10.6, 30.0]), 2)}
         if rng.random() < 0.2:
             argv += ['--lt-server-options', '~--allow-origin *']
+        if rng.random() < 0.3:
+            # transient failures of single requests while the server is up
+            # (the shell repeats a failed request once)
+            http['fail_attempts'] = sorted(rng.sample(range(0, 12),
+                                                      rng.randrange(1, 4)))
+            http['fail_kind'] = rng.choice(['reset', 'reset', '503'])
     elif transport == 'lt':
         argv += ['--server', 'lt']
         http = {'remote_down': rng.random() < 0.05}
@@ -444,7 +450,12 @@ def evaluate(plan):
              and http.get('boot_delay', 0) > 0
              and 'error starting server' in obs['stderr'])
             or (plan['transport'] in ('lt', 'textgears')
-                and http.get('remote_down')))
+                and http.get('remote_down'))
+            # a request was lost and the shell gave up with its diagnostic: no
+            # answer was obtained, nothing to judge (how often the shell
+            # retries is not part of C14)
+            or (any(k.startswith('http_transient') for k in obs['fired'])
+                and 'error connecting' in obs['stderr']))
         if no_answer and '*** yalafi.shell: ' in obs['stderr']:
             probes['no_answer'] = 1
             probes['lt_server_boot_wait_s'] = int(obs.get('slept', 0))
@@ -454,6 +465,8 @@ def evaluate(plan):
         return viol('status:' + status)
     if obs.get('slept', 0) > 0:
         probes['lt_server_boot_wait'] = 1
+    if any(k.startswith('http_transient') for k in obs['fired']):
+        probes['request_lost_and_repeated'] = 1
 
     us = units(plan)
     subs = shellscen.submissions(obs)
